@@ -13,6 +13,9 @@ T_NOTE = ("Sequentially consistent interleavings at the scheduling points announ
           "operation and lock acquire/release of the runtime); trusted: std Arc/Mutex, once_cell internals, the "
           "scheduler in harness/vh/src/sched.rs. Weak memory orderings and free-running stress are out of scope.")
 
+G_NOTE = ("Programs are generated from a bounded grammar, compiled against the working tree (hooks on) and check themselves; "
+          "trusted: rustc, the generator's expected values. Shapes that the macro or rustc reject are counted, never reported.")
+
 CHECKS = {
     "C01": dict(
         engine="S", category="model_checking", design="3/C01",
@@ -69,6 +72,51 @@ CHECKS = {
         technique="exhaustive enumeration of metamorphic relation instances (clause shuffles, call routings, interleaved twin mocks, generic instantiations) with a differential oracle on the real runtime",
         text="(a) two base lists of 6 clauses, every sublist of >= 2 clauses, every admissible shuffle x every history of depth 3 (quick) / 4 (thorough); (b) every history x every assignment of its calls to original / clone 1 / clone 2; (c) every pair of depth-2 histories x every interleaving on two mocks built from the same clauses; (d) every pattern list over two instantiations of a generic method x every call sequence. Compared with the baseline run: every call's outcome (value or panic text), all counters, ordered index, recorded errors, verdict line multiset.",
         note="Pure differential oracle: the baseline run of the real mock is the expected value; no reference model involved."),
+    "C05": dict(
+        engine="G", category="exploration", design="3/C05",
+        technique="exhaustive enumeration of a bounded grammar of trait declarations; every generated program is compiled against the working tree and checks itself",
+        text="Receiver {&self,&mut self,self,Rc,Arc,Pin} x parameter lists (all lists of arity <= 2 over 7 kinds incl. &mut, &str, slices, Option<&T>; arity 3..5 with <= 2 deviations) x return {unit, owned, &T} x {sync, async fn, -> impl Future, #[async_trait]} x generics {none, method, trait, impl Trait} x api {module, flattened, hidden}. A recording matcher and an answer function must both see the caller's pairwise-distinct arguments in order, the result returns unchanged (answers and returns paths), &mut writes are visible, a future dropped unpolled evaluates nothing and an awaited one exactly once. Quick ~1.3k shapes, thorough ~3.9k.",
+        note=G_NOTE),
+    "C06": dict(
+        engine="G", category="exploration", design="3/C06",
+        technique="exhaustive enumeration of a catalogue-driven grammar of matching! invocations, each evaluated on its whole finite argument domain against a native Rust match",
+        text="Sub-patterns of 11 argument types (literals, ranges, wildcards, bindings, @-bindings, or-patterns, tuple/struct/enum/Option patterns, slice patterns with rest, string literals against &str/String/AsRef<str> newtype, bare unit variants, eq!/ne!), 1-3 arguments, simple and disjunctive form (2-4 alternatives, every pair over a sub-pattern set with eq!/ne! in all positions), guards incl. || combined with eq!/ne!, mixed literal kinds per position. Every argument tuple of the domain in three modes (unordered strict, unordered with fallback, ordered) must be accepted iff the emitted native match accepts it.",
+        note=G_NOTE + " Two genuine defects found by this check were fixed in /repo (guard precedence, three alternatives)."),
+    "C11": dict(
+        engine="F", category="fault_enumeration", design="3/C11",
+        technique="exhaustive crash-point enumeration: one child process per (panic origin x instance topology x expectation) cell, exit status and panic reports judged by the parent",
+        text="20 panic origins (before/after calls, matcher, answer, real function, default body, argument Debug, return Clone, every mock-induced error kind, by-value default body) x 12 topologies (plain, clone outliving / dying first, clone parked on another thread, Box/Rc/Arc, foreign creator thread with and without clone, origin on a worker thread holding a clone or the original, caught-and-continue) x expectation met/unmet = 413 cells. No child may die by signal; exit status and number of panic reports must be what the cell implies; the first report is the injected panic, none is one of teardown's own sentences; caught cells keep working and verify according to the calls actually matched.",
+        note="std build; a double panic is observed as SIGABRT of the child. The table is enumerated completely in both tiers."),
+    "C14": dict(
+        engine="G+S", category="exploration", design="3/C14",
+        technique="exhaustive enumeration of tuple shapes / offending-clause positions (generated self-checking programs) plus an exhaustive sweep of builder call chains against rustc",
+        text="Order: every flat tuple arity 2..16, every nesting tree with <= 5 (quick) / 6 (thorough) leaves, unit elements at every position, every arity nested on either side: slot ranges after assembly are consecutive in declaration order, exactly the left-to-right call order is accepted, the leftmost overlapping unordered clause answers, final verification is silent. Rejection at construction: ordered+unordered clauses of one method at every pair of positions (all pairs for arities 2,3,8,16), both orders; empty stub at every position; single-use returns in the feature set without mutex. Compile time: every valid builder prefix up to length 3 / 5 extended by every builder method and by use-as-clause must be accepted / rejected by rustc exactly as the reference automaton says; 1- and 17-tuples rejected.",
+        note=G_NOTE),
+    "C15": dict(
+        engine="G", category="exploration", design="3/C15",
+        technique="exhaustive enumeration of a bounded grammar of provided-method shapes; generated programs mix direct and delegated calls and compare with the generator's evaluator",
+        text="Receiver of the provided method x default body calling 0..3 required methods (plus a by-value required call, plus a lent reference) x signature {(u8), (u8,&str,&mut u32)} x {no clause, applies_default_impl()} x {strict, partial} x {unordered exact counts, one global ordered sequence}. History: direct call, delegated call, direct call, delegated call. The body runs once per call with the caller's arguments, results equal the body evaluated over the mock's answers, all required calls are counted on the shared state (H3), the ordered index advances as for direct calls, final verification is silent.",
+        note=G_NOTE + " Rc/Arc receivers are driven with the caller keeping a second handle."),
+    "C16": dict(
+        engine="G", category="exploration", design="3/C16",
+        technique="exhaustive enumeration of a bounded grammar of unmock_with configurations; generated programs log the real function's invocations",
+        text="Receiver x parameter lists x unmock_with form {path, path(self,..), reordered, params only, _} x (methods in trait, position, skipped static fn in front) x {sync, async} x {strict + applies_unmocked, partial fall-through, partial mentioned-but-unmatched} x {required, provided with default body}; recursion depth 0..3 through the mock. The registered function runs exactly once per level with the mock and the caller's arguments in order, result unchanged, re-entrant calls hit the shared counters; `_` panics naming the method; unmentioned provided methods prefer the default body.",
+        note=G_NOTE + " The genuine defect found here (&mut self / Pin receivers never unmocked) was fixed in /repo."),
+    "C17": dict(
+        engine="G", category="exploration", design="3/C17",
+        technique="exhaustive enumeration of a bounded grammar of return types and their variants; generated programs compare observed and configured values",
+        text="Return types over {Option, Result, Vec, Poll, 1-4-tuples} x leaves {u32, non-Clone, &u32, &str, &[u8], &'static u32}, depth <= 2 (quick) / 3 (thorough); every variant and Vec lengths 0..4; single-use path and (if Clone) multi-use path. Observed value structurally equal (Debug with distinct payloads), borrowed leaves at the same addresses on repeated calls, second request panics exactly when the produced variant contains an owned leaf on the single-use path.",
+        note=G_NOTE),
+    "C19": dict(
+        engine="G", category="exploration", design="3/C19",
+        technique="exhaustive enumeration of parameter-type lists x error kinds and of sub-pattern tuples x failing argument tuples; generated programs compare exact message texts / parsed mismatch entries",
+        text="(A) parameter lists over 12 kinds (incl. &, &mut, &&, slices, non-Debug by value and reference, Option<&T>, generics with/without Debug) of arity 1-4 x 9 mock-induced error kinds: exact message predicted (call rendered with arguments in order, '?' without Debug, path only for missing real/default implementation). (B) every tuple of 2-3 sub-patterns over {literal, _, or-literals, eq!, ne!} x every failing argument tuple of {0,1,2}^n, unordered (1 and 2 patterns) and ordered: the report lists exactly the rejected positions with kind and actual value; ordered messages name the pattern by source text and file:line.",
+        note=G_NOTE + " Built without pretty-print. Messages of racing ordered calls are covered by C10's sequential-candidate oracle."),
+    "C20": dict(
+        engine="S-style", category="exploration", design="3/C20",
+        technique="exhaustive enumeration of environment-answer scripts replayed by the mock and by a plain struct implementing the upstream trait (differential), plus the complete entry-point wiring table",
+        text="Wiring: all 83 methods of all mirrored traits (core fmt/hash, std error/io, tokio io, futures io, embedded-hal delay/digital/i2c/pwm/spi): a mock with a logging clause on every method; each method called through the upstream trait logs exactly itself. Composition: every script of length <= 3 (quick) / 4 (thorough) over chunk sizes {0,1,2,3}, payload chunks, Interrupted, Other through write_all/write_vectored/write!/flush, read_exact/read_to_end/read_to_string/read_vectored, read_until/read_line, rewind/stream_position, Hasher::write_*, format!, DelayNs::delay_us/ms, set_state, toggle, I2c read/write/write_read, SetDutyCycle::*, SpiDevice::*, tokio/futures vectored polls, strict and partial: identical results, buffers and required-method call sequences.",
+        note="Differential oracle = plain struct sharing the script function with the mock's answers; features mock-core, mock-std, mock-tokio-1, mock-futures-io-0-3, mock-embedded-hal-1."),
 }
 
 NOT_YET = "check not built yet (work in progress; see DESIGN.md section 3)"
